@@ -18,7 +18,7 @@ pub const DEF: PropDef = PropDef {
     run,
     replay,
     level: "exploration",
-    rule: "cases = (handshake string, suite, backend, per-message failing attempts from the C07 fault alphabet each followed by a retry with a DIFFERENT payload, then a transport script over {write, failing write, auto rekey of either direction on either side, manual rekey with fresh keys, stateless writes with distinct nonces, set_receiving_nonce on either side (also the send-only side of one-way patterns), delivery of the last written message, the sending counter moved forward to 2^64-1-k and writes / rekeys there}); both endpoints use a recording cipher/DH and a seeded RNG that yields fresh bytes on every draw. Oracle: in the merged log of both endpoints no two Enc records share (key, nonce) with different (ad, plaintext) (rekey encryptions included); for every written message containing `e`, the public key on the wire is the DH public key of bytes drawn from the RNG during that very call. Non-trivial = the history contains a failed call that was retried, or a rekey; distinct by (name, suite, faults, transport script)",
+    rule: "cases = (handshake string, suite, backend, per-message failing attempts from the C07 fault alphabet each followed by a retry with a DIFFERENT payload, then a transport script over {write, failing write, auto rekey of either direction on either side, manual rekey with fresh keys, stateless writes with distinct nonces per key epoch (numbering may restart at 0 after the SENDER installed a fresh manual key for its direction), set_receiving_nonce on either side (also the send-only side of one-way patterns), delivery of the last written message, the sending counter moved forward to 2^64-1-k and writes / rekeys there}); both endpoints use a recording cipher/DH and a seeded RNG that yields fresh bytes on every draw. Oracle: in the merged log of both endpoints no two Enc records share (key, nonce) with different (ad, plaintext) (rekey encryptions included); for every written message containing `e`, the public key on the wire is the DH public key of bytes drawn from the RNG during that very call. Non-trivial = the history contains a failed call that was retried, or a rekey; distinct by (name, suite, faults, transport script)",
     technique: "history invariant over an instrumented CryptoResolver (recording cipher + recording RNG), fault schedules enumerated from reference field maps + proptest",
     assumptions: &[
         "caller-induced reuse is out of domain: fixed ephemerals, duplicate stateless nonces, backward moves of the sending counter with the verif hook and manual rekeys to an already used key are not generated (the hook is only used to move a sending counter forward to 2^64-1-k)",
@@ -324,6 +324,17 @@ pub fn oracle(c: &Case, acc: &mut Acc) -> CaseResult {
                             0 => t.rekey_manually(Some(&k1), None),
                             1 => t.rekey_manually(None, Some(&k2)),
                             _ => t.rekey_manually(Some(&k1), Some(&k2)),
+                        }
+                        // fresh keys: an application may number the messages of the new epoch from
+                        // 0 again (uniqueness is per key). Only the sender's key matters for
+                        // encryption: the initiator sends in direction 0, the responder in 1.
+                        let fresh_dir0 = *side_i && which % 3 != 1;
+                        let fresh_dir1 = !*side_i && which % 3 != 0;
+                        if fresh_dir0 && spec.key_seed % 2 == 0 {
+                            n[0] = 0;
+                        }
+                        if fresh_dir1 && spec.key_seed % 2 == 0 {
+                            n[1] = 0;
                         }
                     },
                     TOp::ReadGarbage(i_r, l) => {
